@@ -160,13 +160,20 @@ func c36Config() *config.BGP {
 	case 2:
 		g.ClusterID = "10.255.0.2"
 	}
-	switch c36Pick(6, 4) {
+	switch c36Pick(6, 7) {
 	case 1:
 		n1.IPv4 = &config.AddressFamilyConfig{AddPath: &config.AddPathConfig{Receive: true}}
 	case 2:
 		n1.IPv4 = &config.AddressFamilyConfig{AddPath: &config.AddPathConfig{Send: &config.AddPathSendConfig{Multipath: true, PathCount: 4}}}
 	case 3:
 		g.IPv4 = &config.AddressFamilyConfig{AddPath: &config.AddPathConfig{Receive: true, Send: &config.AddPathSendConfig{Multipath: true, PathCount: 2}}}
+	case 4: // sends one path like best-only does, but negotiates add-path send
+		n1.IPv4 = &config.AddressFamilyConfig{AddPath: &config.AddPathConfig{Send: &config.AddPathSendConfig{Multipath: true, PathCount: 1}}}
+	case 5: // a path count without multipath
+		n1.IPv4 = &config.AddressFamilyConfig{AddPath: &config.AddPathConfig{Send: &config.AddPathSendConfig{PathCount: 4}}}
+	case 6: // the group's setting of case 3 overridden by the neighbor's own family section
+		g.IPv4 = &config.AddressFamilyConfig{AddPath: &config.AddPathConfig{Receive: true, Send: &config.AddPathSendConfig{Multipath: true, PathCount: 2}}}
+		n1.IPv4 = &config.AddressFamilyConfig{AddPath: &config.AddPathConfig{Send: &config.AddPathSendConfig{Multipath: true, PathCount: 1}}}
 	}
 	if c36Pick(7, 2) == 1 {
 		n1.IPv6 = &config.AddressFamilyConfig{}
@@ -178,11 +185,25 @@ func c36Config() *config.BGP {
 		n1.IPv4.NextHopExtended = true
 	}
 	g.ImportFilterChain, g.ExportFilterChain = c36ChainA, c36ChainA
-	if c36Pick(8, 2) == 1 {
+	// 1: the group's policy changes; 2: the neighbor overrides the group's policy by name; 3: both (group rejects,
+	// the neighbor's own statement accepts)
+	switch c36Pick(8, 4) {
+	case 1:
 		g.ImportFilterChain = c36ChainB
+	case 2:
+		n1.Import = []string{"REJECT_ALL"}
+	case 3:
+		g.ImportFilterChain = c36ChainB
+		n1.Import = []string{"ACCEPT_ALL"}
 	}
-	if c36Pick(9, 2) == 1 {
+	switch c36Pick(9, 4) {
+	case 1:
 		g.ExportFilterChain = c36ChainB
+	case 2:
+		n1.Export = []string{"REJECT_ALL"}
+	case 3:
+		g.ExportFilterChain = c36ChainB
+		n1.Export = []string{"ACCEPT_ALL"}
 	}
 	switch c36Pick(10, 3) {
 	case 1:
@@ -219,7 +240,7 @@ func c36Config() *config.BGP {
 		}
 	}
 	cfg := &config.BGP{Groups: []*config.BGPGroup{g}}
-	err := config.VerifLoadBGP(cfg, 65000)
+	err := config.VerifLoadBGPWith(cfg, 65000, []*filter.Filter{c36ChainA[0], c36ChainB[0]})
 	vAssert(err == nil, "C36.config.loads")
 	return cfg
 }
